@@ -36,6 +36,11 @@ CHECKS = {
          "Every opcode/operand form on all finite special-value points and finite-endpoint boxes, every composition op2(op1(..),..) / op2(p1(..),p2(..)) / op3(op2(p1,p2)) of overflow-or-invalid producers with all 30 opcodes (register and immediate forms) on 12^3 grids of points and boxes reaching +-f32::MAX, the Shape API with extreme and projective matrices, and malformed argument lists, are executed on VM and JIT point / interval / float-slice / grad-slice evaluators; any panic, abort, fault, malformed returned interval or non-error on malformed arguments is a violation, attributed to the operation that creates it.",
          "Trusted: the crash journal (process-level attribution) and the alphabets; composition depth 2 (quick) / 3 (thorough); x86_64 JIT only.",
          "DESIGN.md §4 C11"),
+ "C12": ("model_checking",
+         "bounded-exhaustive enumeration of expression trees over all opcodes and special constants x assignments, context graph vs. un-rewritten evaluation; deep-tree stack bound",
+         "Every expression tree of depth <= 2 over all 30 opcodes with leaves {x,y} and the special constants (0,-0,1,-1,2,NaN,3.7; thorough adds 0.5,+-inf,denormal), shared sub-trees included, is built through the public constructors and, separately, as a Tree that is imported; the graph the context then holds is evaluated at an 11x11 grid of assignments and must equal (==) the operation-by-operation value of the un-rewritten expression wherever that stays finite; node identity on rebuild, import(export(n)) = n, Tree == and Hash agreement are checked on every tree; 1e5/1e6-node trees of three shapes are built, compared, hashed, imported, exported and dropped on a 256 KiB stack.",
+         "Trusted: ref32; points where a zero reaches an op sensitive to the sign of zero are skipped (the property holds up to the sign of zero).",
+         "DESIGN.md §4 C12"),
  "C15": ("model_checking",
          "bounded-exhaustive enumeration of programs x budgets; bytecode executed by a documentation-only interpreter and compared with the VM",
          "Every program of the C01 sets is serialised with Bytecode::new at budgets that force memory traffic and executed by an interpreter written only from the format documentation (opcode numbers by name from iter_ops); outputs must equal the VM's bit-for-bit and every structural promise (markers, word count, register/memory bounds, reserved register) is checked on every bytecode.",
